@@ -63,7 +63,18 @@ pub unsafe fn shim_copy<T>(src: *const T, dst: *mut T, count: usize) {
 
 /// symbolic `std::thread::panicking()`
 pub fn shim_panicking() -> bool {
-    unsafe { sim::S.PANICKING }
+    unsafe {
+        if sim::S.VERIFY_EXPECTS_RESTORED {
+            // CallCountVerifier::drop asks this only when the count differs from the expectation,
+            // i.e. right before it panics: by then unwinding must have nothing left to restore
+            // wrongly - the property requires every faked function to be restored.
+            assert!(
+                sim::all_entries_restored() && sim::live_jits() == 0,
+                "VERIF[C05,C02]: call-count verification (which may panic) runs before the faked functions are restored"
+            );
+        }
+        sim::S.PANICKING
+    }
 }
 
 /// An arbitrary user-space code address for a function entry with `slot` bytes modelled.
